@@ -153,11 +153,19 @@ def random_lens(rnd, nsurf=None, kinds=("standard",), mirrors=False, tilts=False
                               "objectNA": rnd.uniform(0.01, 0.1)}[aperture])
     if field_type is None:
         field_type = "object_height" if (finite_object and rnd.random() < 0.6) else "angle"
-    o.set_field_type(field_type)
     mf = max_field if max_field is not None else (rnd.uniform(0.5, 6.0) if field_type == "angle" else rnd.uniform(0.5, 5.0))
+    # the order of the configuration calls is the user's: in a fifth of the lenses the fields are
+    # added before the field type is set (decided from a number already drawn, so that the
+    # prescriptions of all seeds stay what they were)
+    fields_first = int(epd * 1e6) % 5 == 0
+    if not fields_first:
+        o.set_field_type(field_type)
     o.add_field(y=0.0)
     o.add_field(y=0.7 * mf)
     o.add_field(y=mf)
+    if fields_first:
+        o.set_field_type(field_type)
+        meta["fields_added_before_field_type"] = True
     for i, w in enumerate(wavelengths or [0.4861, 0.5876, 0.6563]):
         o.add_wavelength(w, is_primary=(i == 1 or len(wavelengths or [1, 2, 3]) == 1))
     meta.update(epd=epd, field_type=field_type, max_field=mf)
